@@ -194,6 +194,18 @@ def _worker(args):
             v = {"kind": "event:" + name, "detail": "event clause %s false for transition %s" % (name, tr),
                  "replay": replay_of(k, micro_index=n_, pre_micro=pre, transition=tr, post_micro=post)}
             v["facts"] = event_facts(name, tracer.records[k], n_, pre, tr, post)
+            if name == "dispatch" and v["facts"].get("early") is False and v["facts"].get("ready_when_applied") is False:
+                # does the clause fail for anything but its readiness conjunct (C11's last sentence)? evaluate it once more
+                # with early transport allowed in the instance
+                cd = tracer.records[k].codec
+                if cd.inst_sx.endswith(" 0)"):
+                    try:
+                        drv.cur = None
+                        if drv.ask("I " + cd.inst_sx[:-3] + " 1)") == "(inst)" and drv.ask("G " + cd.sigma_sx) == "(sigma)":
+                            bits = drv.ask("EV %s %s %s" % (pre, tr, post)).strip("()").split()
+                            v["facts"]["fails_with_readiness_neutralised"] = (bits[trace.EVENTS.index("dispatch")] != "1")
+                    finally:
+                        drv.cur = None
             out["violations"].append(v)
     # event kinds seen (coverage)
     for r in tracer.records:
@@ -263,6 +275,29 @@ def event_facts(name, rec, n, pre, tr, post):
                     stale = True
                     break
             f["stale_after_same_instant_append"] = stale
+        if name == "dispatch":
+            x = sxdiff.parse(pre)
+            x0 = sxdiff.parse(rec.pre)
+            t = sxdiff.parse(tr)
+            j = t[2]
+            i = sxdiff.parse(rec.codec.inst_sx)
+
+            def ready(st_):
+                loc = st_[1][int(j)][1]
+                if loc[0] == "post":
+                    ty = i[1][int(loc[1])][2][0]
+                elif loc[0] == "std":
+                    ty = i[3][int(loc[1])][0]
+                else:
+                    return loc, "?", False
+                store = _store_of(st_, loc)
+                ty = {"0": "fifo", "1": "lifo", "2": "flex", "3": "dummy"}.get(ty, ty)
+                ok = bool(store) and (store[-1] == j if ty == "lifo" else (j in store if ty == "flex" else store[0] == j))
+                return loc, ty, ok
+            loc, ty, now_ok = ready(x)
+            _, _, in_ok = ready(x0)
+            f.update(early=bool(rec.codec.early), buffer_kind=loc[0], buffer_type=ty, ready_when_applied=now_ok,
+                     ready_at_step_input=in_ok, chosen_by_agent=(tr in (rec.trs or "")), job=j)
     except Exception as e:  # facts are best effort; absence means "does not match a finding"
         f["error"] = repr(e)
     return f
@@ -439,6 +474,14 @@ def c_generic(ctx):
     keep_only(ctx, lambda v: not v["kind"].startswith("outcome:"))
 
 
+def c07(ctx):
+    c_generic(ctx)
+    # "with early transport disabled an AGV is only dispatched to a ready job" is C11's sentence: a dispatch clause that fails
+    # ONLY in its readiness conjunct is C11's to report (known finding F-C11-teleport-dispatch-buried), everything else stays
+    keep_only(ctx, lambda v: not (v["kind"] == "event:dispatch"
+                                  and (v.get("facts") or {}).get("fails_with_readiness_neutralised") is False))
+
+
 def witness_hang(ctx):
     """The witness of the theorem C05_refuted_* (coq/SM/ExampleHang.v) replayed on the implementation: the same
     document, the same two actions; the implementation must still exceed the step budget there and its
@@ -497,6 +540,47 @@ def witness_deadlock(ctx):
             % (end, same))
 
 
+def witness_unready(ctx):
+    """The witness of the theorem C11_dispatch_only_to_ready_jobs_refuted (coq/SM/ExampleUnready.v) replayed on the
+    implementation: the dispatch event clause fails on the recorded transition (known finding F-C11-teleport-dispatch-buried)."""
+    import batch
+    import jsl
+    import tocoq
+    import trace
+    w = json.loads((ctx.verif / "harness" / "example_unready.json").read_text())
+    cfg = jsl.with_cfg(jsl.load_config(), early=False, trunc_active=False)
+    tracer = trace.Tracer()
+    tracer.want_pre = True
+    it = iter(w["actions"])
+    env, end, actions, et = batch.run_episode(tracer, w["dsl"], cfg, lambda e: next(it, 1), max_steps=len(w["actions"]))
+    same = False
+    nbad = 0
+    if tracer.records:
+        r0 = tracer.records[0]
+        txt = (ctx.verif / "coq" / "SM" / "ExampleUnready.v").read_text()
+        same = ("Definition ur_inst : inst := %s." % tocoq.inst(r0.codec.inst_sx)) in txt and \
+               ("Definition ur_init : state := %s." % tocoq.state(r0.pre)) in txt
+        drv = jsl.Driver()
+        try:
+            for k, n_, name, pre, tr, post in trace.monitor_events(tracer.records, drv, which={"dispatch"}):
+                nbad += 1
+                v = {"kind": "event:" + name, "detail": "event clause %s false for transition %s (witness of "
+                     "C11_dispatch_only_to_ready_jobs_refuted)" % (name, tr),
+                     "replay": {"dsl": w["dsl"], "cfg": {"early": False, "trunc_active": False}, "actions": w["actions"],
+                                "record": k, "micro_index": n_, "pre_micro": pre, "transition": tr, "post_micro": post}}
+                v["facts"] = event_facts(name, tracer.records[k], n_, pre, tr, post)
+                ctx.violations.append(v)
+        finally:
+            drv.close()
+    ctx.coverage["refutation_witness_unready_dispatch"] = {"theorem": "C11_dispatch_only_to_ready_jobs_refuted", "implementation_end": end,
+                                                          "dispatch_clause_failures_on_implementation": nbad,
+                                                          "same_instance_and_initial_state_as_theorem": same}
+    if not same:
+        ctx.broken_correspondence.append(
+            "the witness of C11_dispatch_only_to_ready_jobs_refuted (SM/ExampleUnready.v) no longer matches what the compiler "
+            "produces for harness/example_unready.json")
+
+
 def c05(ctx):
     sm_check(ctx, n_quick=240, custom_p=0.2)
     # truncation/termination are normal ends; everything else is a totality violation
@@ -519,6 +603,7 @@ def c11(ctx):
     keep_only(ctx, relevant)
     witness_hang(ctx)
     witness_deadlock(ctx)
+    witness_unready(ctx)
     ctx.assumptions.append("configuration class of C11 decided on the compiled instance: every buffer capacity >= #jobs and "
                            "(early transport disabled or all post-buffers flex or #AGV >= #jobs)")
 
@@ -649,6 +734,6 @@ def c09(ctx):
 
 
 TABLE = {
-    "C01": c_generic, "C02": c_generic, "C03": c_generic, "C05": c05, "C07": c_generic, "C08": c08,
+    "C01": c_generic, "C02": c_generic, "C03": c_generic, "C05": c05, "C07": c07, "C08": c08,
     "C09": c09, "C10": c_generic, "C11": c11, "C12": c12, "C20": c20, "C04": c04, "C18": c18,
 }
